@@ -157,7 +157,8 @@ def handle : List String → String
           let r := Opus.SilkSynthIdx.coreAccesses
             { fsKHz := fs, nbSubfr := nb, signalType := sig, quantOffsetType := qoff, interp := interp ≠ 0,
               pitchL := pl, lossCnt := loss, prevSignalType := prev, lagPrev := lagPrev, gainDiff := gd, adjNe := ad }
-          if r.2 then "ABORT" else s!"OK {Opus.SilkSynthIdx.extentsStr r.1 coreTieArrays}"
+          if r.2 then "ABORT"
+          else s!"OK {Opus.SilkSynthIdx.extentsStr r.1 coreTieArrays} alloc\{{Opus.SilkSynthIdx.allocStr (Opus.SilkSynthIdx.cfgOf fs nb) [.sLTP, .sLTP_Q15, .res_Q14, .sLPC_Q14]}}"
       | _, _, _, _, _ => "bad-op"
     | _, _, _, _, _, _ => "bad-op"
   | ["synthparams", fs, nb, sig, per, ltp, scale, interp, ffar, loss] =>
@@ -170,16 +171,19 @@ def handle : List String → String
             interpCoefQ2 := interp, firstFrameAfterReset := ffar ≠ 0, lossCnt := loss }
         s!"OK {Opus.SilkSynthIdx.extentsStr a [.gainsIdx, .gains, .nlsfIdx, .predCoef, .prevNlsf, .pitchL, .ltpIdx, .ltpVq0, .ltpVq1, .ltpVq2, .ltpCoef]}"
     | _, _, _ => "bad-op"
-  | ["synthout", fs, nb, nci, nca, api, hs, stm, lost] =>
-    match [fs, nci, nca, api, hs, stm, lost].mapM parseInt, parseNat nb with
-    | some [fs, nci, nca, api, hs, stm, lost], some nb =>
+  | ["synthout", fs, nb, nci, nca, api, hs, stm, lost, sst] =>
+    match [fs, nci, nca, api, hs, stm, lost, sst].mapM parseInt, parseNat nb with
+    | some [fs, nci, nca, api, hs, stm, lost, sst], some nb =>
       if (nb ≠ 2 ∧ nb ≠ 4) ∨ (fs ≠ 8 ∧ fs ≠ 12 ∧ fs ≠ 16) then "bad-op"
       else
         let x : Opus.SilkSynthIdx.OutIn :=
-          { fsKHz := fs, nbSubfr := nb, nChInt := nci, nChAPI := nca, apiHz := api, hasSide := hs ≠ 0, stereoToMono := stm ≠ 0, lost := lost ≠ 0 }
+          { fsKHz := fs, nbSubfr := nb, nChInt := nci, nChAPI := nca, apiHz := api, hasSide := hs ≠ 0, stereoToMono := stm ≠ 0, lost := lost ≠ 0, stereoStart := sst ≠ 0 }
         let r := Opus.SilkSynthIdx.outAccesses x
-        if r.2 then "ABORT"
-        else s!"OK n={x.cfg.frameLen * api / (fs * 1000)} {Opus.SilkSynthIdx.extentsStr r.1 [.tmpStore, .out2, .samplesOut, .sMid, .sSide, .predPrev, .delayBuf0, .delayBuf1]}"
+        if r.aborted then "ABORT"
+        else
+          let e := Opus.SilkSynthIdx.extentsStr
+          let arrs : List Opus.SilkSynthIdx.Arr := [.tmp0, .tmp1, .out2, .samplesOut, .sMid, .sSide, .predPrev, .delayBuf0, .delayBuf1]
+          s!"OK n={x.cfg.frameLen * api / (fs * 1000)} top\{{e r.top arrs}} dec\{{e r.dec [.tmp0, .tmp1]}} ms\{{e r.ms arrs}} res0\{{e r.res0 arrs}} res1\{{e r.res1 arrs}} alloc\{{Opus.SilkSynthIdx.allocStr x.cfg [.tmpStore, .out2]}}"
     | _, _ => "bad-op"
   | ["synthframe", fs, nb, loss, prev, lagPrev, ffar, plcFs, pq8, plcNb, plcS, lastLost, plcSeed, cngFs, cngSeed,
      lost, sig, qoff, interp, pl, ltp, gains, gd, ad, lowFirst] =>
@@ -206,7 +210,7 @@ def handle : List String → String
           let t := r.2
           let g := match Opus.SilkSynthIdx.extent r.1.glue .xq false with
             | none => "-" | some (lo, hi) => s!"{lo}..{hi}"
-          s!"OK core\{{e r.1.core coreTieArrays}} plc\{{e r.1.plc plcTieArrays}} top\{{e r.1.top topTieArrays}} cng\{{e r.1.cng cngTieArrays}} glue\{xq:r={g},w=ok} st={t.fsKHz} {t.nbSubfr} {t.lossCnt} {t.prevSignalType} {t.lagPrev} {b t.firstFrameAfterReset} {t.plcFs} {t.pitchLQ8} {t.plcNb} {t.plcSubfr} {b t.lastFrameLost} {t.plcSeed} {t.cngFs} {t.cngSeed}"
+          s!"OK core\{{e r.1.core coreTieArrays}} plc\{{e r.1.plc plcTieArrays}} top\{{e r.1.top topTieArrays}} cng\{{e r.1.cng cngTieArrays}} glue\{xq:r={g},w=ok} alloc\{{Opus.SilkSynthIdx.allocStr st.cfg (if fi.lost then [.sLTP, .sLTP_Q14, .exc_buf, .cngSig] else [.pulses, .sLTP, .sLTP_Q15, .res_Q14, .sLPC_Q14])}} st={t.fsKHz} {t.nbSubfr} {t.lossCnt} {t.prevSignalType} {t.lagPrev} {b t.firstFrameAfterReset} {t.plcFs} {t.pitchLQ8} {t.plcNb} {t.plcSubfr} {b t.lastFrameLost} {t.plcSeed} {t.cngFs} {t.cngSeed}"
     | _, _, _, _, _, _, _ => "bad-op"
   | _ => "bad-op"
 
